@@ -1467,6 +1467,31 @@ func (v *View) checkC13(res *Result) {
 			}
 		}
 	}
+	// a live record written by the outside party may be replaced only by legitimate
+	// preemption: takeover enabled and own priority strictly greater than the stored one
+	// (compared as numbers: 1e30 is a priority too); records that are no JSON object or
+	// carry no usable priority are judged by the library's own reading elsewhere
+	for _, m := range v.Muts {
+		if m.Op != "Update" || m.By == "outside" || m.PrevBy != "outside" || m.PrevOp != "PUT" {
+			continue
+		}
+		is := v.instSpec(m.By)
+		pp := DecodePayload([]byte(m.PrevVal))
+		if is == nil || !pp.Object || len(pp.IDs) == 0 || pp.HasID(m.By) {
+			continue
+		}
+		res.Obs["c13.replaced_outside_records"]++
+		maxPrio := 0.0
+		for _, x := range pp.Prios {
+			if x > maxPrio {
+				maxPrio = x
+			}
+		}
+		if !is.Takeover || !(float64(is.Priority) > maxPrio) {
+			res.viol("C13", "claim-over-foreign-record", fmt.Sprintf("illegitimate-takeover-of-outside-record:takeover=%v", is.Takeover),
+				fmt.Sprintf("%s (takeover=%v prio=%d) replaced a live record it did not write: %q", m.By, is.Takeover, is.Priority, truncS(m.PrevVal, 120)), m.Seq)
+		}
+	}
 	for _, m := range v.Muts {
 		if m.By == "outside" {
 			res.Obs["c13.outside."+m.Op]++
@@ -1554,4 +1579,11 @@ func (v *View) checkC17rounds(res *Result) {
 		}
 	}
 	_ = strconv.Itoa
+}
+
+func truncS(s string, n int) string {
+	if len(s) > n {
+		return s[:n] + "..."
+	}
+	return s
 }
